@@ -146,7 +146,7 @@ func (e *Engine) iconv(a IntV, w int, sg bool) IntV {
 		if (a.sg == sg && w >= a.w) || (!a.sg && sg && w > a.w) {
 			return IntV{a.t, w, sg}
 		}
-		return IntV{e.tb.IWrap(a.t, w, sg), w, sg}
+		return IntV{e.iwrap(a.t, w, sg), w, sg}
 	}
 	switch {
 	case w == a.w:
@@ -160,13 +160,74 @@ func (e *Engine) iconv(a IntV, w int, sg bool) IntV {
 	}
 }
 
+// iaDivMod returns floor quotient and remainder of a by the positive constant c as fresh Int symbols
+// defined by linear constraints in the current path condition (a = c*q + r, 0 <= r < c): no div/mod
+// operators reach the solver.
+func (e *Engine) iaDivMod(a Term, c *big.Int) (q, r Term) {
+	if a.c {
+		qq, rr := new(big.Int), new(big.Int)
+		qq.DivMod(a.iv, c, rr)
+		return e.tb.IntBig(qq), e.tb.IntBig(rr)
+	}
+	st := e.cur
+	if st == nil {
+		return e.tb.IDivFloor(a, e.tb.IntBig(c)), e.tb.IModFloor(a, e.tb.IntBig(c))
+	}
+	if st.divCache == nil {
+		st.divCache = map[string][2]Term{}
+	}
+	key := fmt.Sprintf("%d/%s", a.id, c.String())
+	if p, ok := st.divCache[key]; ok {
+		return p[0], p[1]
+	}
+	tb := e.tb
+	q, r = tb.Sym("q", intSort), tb.Sym("r", intSort)
+	cm1 := new(big.Int).Sub(c, big.NewInt(1))
+	tb.SetBounds(r, big.NewInt(0), cm1)
+	if bounded(a) {
+		lo, hi := new(big.Int), new(big.Int)
+		m := new(big.Int)
+		lo.DivMod(a.lo, c, m)
+		hi.DivMod(a.hi, c, m)
+		tb.SetBounds(q, lo, hi)
+	}
+	st.pc = append(st.pc,
+		tb.Eq(a, tb.IAdd(tb.IMul(q, tb.IntBig(c)), r)),
+		tb.ILe(tb.Int(0), r), tb.ILe(r, tb.IntBig(cm1)))
+	st.divCache[key] = [2]Term{q, r}
+	return q, r
+}
+
+// iwrap reduces an Int term to the range of a Go integer type (no-op when the bounds show it fits).
+func (e *Engine) iwrap(a Term, w int, sg bool) Term {
+	if a.c {
+		return e.tb.IWrap(a, w, sg)
+	}
+	two := pow2(w)
+	lo, hi := big.NewInt(0), new(big.Int).Sub(two, big.NewInt(1))
+	if sg {
+		lo = new(big.Int).Neg(pow2(w - 1))
+		hi = new(big.Int).Sub(pow2(w-1), big.NewInt(1))
+	}
+	if bounded(a) && a.lo.Cmp(lo) >= 0 && a.hi.Cmp(hi) <= 0 {
+		return a
+	}
+	if !sg {
+		_, r := e.iaDivMod(a, two)
+		return r
+	}
+	half := e.tb.IntBig(pow2(w - 1))
+	_, r := e.iaDivMod(e.tb.IAdd(a, half), two)
+	return e.tb.ISub(r, half)
+}
+
 func pow2(k int) *big.Int { return new(big.Int).Lsh(big.NewInt(1), uint(k)) }
 
 func (e *Engine) ibin(op token.Token, a, b IntV) Value {
 	tb := e.tb
 	w, sg := a.w, a.sg
 	if e.ia {
-		mk := func(t Term) Value { return IntV{tb.IWrap(t, w, sg), w, sg} }
+		mk := func(t Term) Value { return IntV{e.iwrap(t, w, sg), w, sg} }
 		switch op {
 		case token.ADD:
 			return mk(tb.IAdd(a.t, b.t))
@@ -179,13 +240,16 @@ func (e *Engine) ibin(op token.Token, a, b IntV) Value {
 				panic(hardErr("IA mode: division by non-constant or non-positive divisor"))
 			}
 			var q, r Term
-			if !sg {
-				q, r = tb.IDivFloor(a.t, b.t), tb.IModFloor(a.t, b.t)
+			if !sg || (a.t.lo != nil && a.t.lo.Sign() >= 0) {
+				q, r = e.iaDivMod(a.t, b.t.iv)
 			} else {
+				// Go truncates toward zero
 				neg := tb.ILt(a.t, tb.Int(0))
 				na := tb.ISub(tb.Int(0), a.t)
-				q = tb.Ite(neg, tb.ISub(tb.Int(0), tb.IDivFloor(na, b.t)), tb.IDivFloor(a.t, b.t))
-				r = tb.Ite(neg, tb.ISub(tb.Int(0), tb.IModFloor(na, b.t)), tb.IModFloor(a.t, b.t))
+				qn, rn := e.iaDivMod(na, b.t.iv)
+				qp, rp := e.iaDivMod(a.t, b.t.iv)
+				q = tb.Ite(neg, tb.ISub(tb.Int(0), qn), qp)
+				r = tb.Ite(neg, tb.ISub(tb.Int(0), rn), rp)
 			}
 			if op == token.QUO {
 				return IntV{q, w, sg}
@@ -208,7 +272,8 @@ func (e *Engine) ibin(op token.Token, a, b IntV) Value {
 			if k >= w {
 				k = w
 			}
-			return IntV{tb.IDivFloor(a.t, tb.IntBig(pow2(k))), w, sg}
+			q, _ := e.iaDivMod(a.t, pow2(k))
+			return IntV{q, w, sg}
 		case token.AND:
 			x, y := a, b
 			if x.t.c {
@@ -217,7 +282,8 @@ func (e *Engine) ibin(op token.Token, a, b IntV) Value {
 			if y.t.c {
 				m := new(big.Int).Add(y.t.iv, big.NewInt(1))
 				if y.t.iv.Sign() >= 0 && new(big.Int).And(m, y.t.iv).Sign() == 0 { // 2^k-1
-					return IntV{tb.IModFloor(x.t, tb.IntBig(m)), w, sg}
+					_, r := e.iaDivMod(x.t, m)
+					return IntV{r, w, sg}
 				}
 			}
 			panic(hardErr("IA mode: bitwise AND with a non-mask operand"))
@@ -342,6 +408,7 @@ func (e *Engine) freshInt(st *State, prefix string, w int, sg bool) IntV {
 			hi = new(big.Int).Sub(pow2(w-1), big.NewInt(1))
 		}
 		st.pc = append(st.pc, e.tb.ILe(e.tb.IntBig(lo), t), e.tb.ILe(t, e.tb.IntBig(hi)))
+		e.tb.SetBounds(t, lo, hi)
 		return IntV{t, w, sg}
 	}
 	return IntV{e.tb.Sym(prefix, bvSort(w)), w, sg}
